@@ -1,5 +1,6 @@
 \* (FastAgree is checked by MC_DataX.cfg and MC_DataX_thorough3.cfg; here it would decode every 64 KB payload twice more)
-\* thorough (a): every program of two writes, with the real 16-bit / 32-bit length thresholds as payloads
+\* thorough (a): every program of two writes, with the real 16-bit / 32-bit length thresholds as payloads (a payload
+\* of that size is paired with the other heavy payloads and with the partner kinds of MC_DataX!Partner)
 SPECIFICATION MCSpec
 CONSTANTS MaxLen = 2
           BlobLens = {0, 1, 253, 254, 255, 256, 65535, 65536}
